@@ -7,7 +7,7 @@ src, pid = Path(sys.argv[1]), sys.argv[2]
 results = json.loads(Path(sys.argv[3]).read_text()) if len(sys.argv) > 3 else {}
 dst_root = Path("/verif/seeded")
 dst_root.mkdir(exist_ok=True)
-for m in sorted((src / "out").glob("m*")):
+for m in sorted(p for p in (src / "out").glob("m[0-9]") if p.is_dir()):
     d = dst_root / f"{pid}-{m.name}"
     d.mkdir(exist_ok=True)
     for f in ("patch.diff", "demo.py"):
